@@ -155,6 +155,9 @@ type Prop struct {
 	// of a case is reported (marked intermittent) instead of being discarded as flaky. Only for
 	// properties whose statement is determinism itself (C11).
 	NondeterminismIsViolation bool
+	// Prepare, when set, runs once in the parent process before the workers start (e.g. to build
+	// a shared corpus file that every worker then loads).
+	Prepare func(tier string)
 	// StepBudget per Check call (0 = default).
 	StepBudget int64
 }
